@@ -448,6 +448,10 @@ pub fn guarded<T>(f: impl FnOnce() -> T) -> Result<T, String> {
 
 /// silence the default panic hook output (the subject's panics are data here)
 pub fn quiet_panics() {
+    // MC_LOUD=1 keeps the default hook (message + backtrace on stderr) for debugging one replay
+    if std::env::var("MC_LOUD").is_ok() {
+        return;
+    }
     std::panic::set_hook(Box::new(|_| {}));
 }
 
